@@ -4,16 +4,20 @@ import LenaModel.Model.C13
 /-! Model driver for C13.  Keys are numbered by the case's sorted key alphabet `names`; contexts travel as
 JSON objects (a leaf is an int or a string; `null` = the unmodelled rendering of a dictionary).
 Request:
-  {"op":"build","names":[..],"out":[output,filename,prefix,suffix slots],"tree":T,"flow":[ctx,..]|null,
+  {"op":"build","names":[..],"out":[output,filename,prefix,suffix,dirname,fileext slots],"tree":T,"flow":[ctx,..]|null,
    "src":[ctx,..]}
   T ::= {"k":"seq","kind":"Sequence"|"Source","c":[T..]} | {"k":"split","c":[T..]}
       | {"k":"set","key":[slots],"val":leaf|null,"tpl":TPL|null} | {"k":"store"|"ucfs"|"data"|"src"}
       | {"k":"mut","key":[slots],"val":leaf}
-      | {"k":"mkf"|"write"|"cache","tpl":TPL}
+      | {"k":"write"|"cache","tpl":TPL}
+      | {"k":"mkf","methods":[["prefix"|"suffix"|"filename"|"dirname"|"fileext",TPL],..],"overwrite":bool}
   TPL ::= [lit0, [slots of field 1], lit1, …]
 Reply: {"nodes":[per node in document order: {"k":..,"get":ctx|{"e":key}} (set, seq, split),
-  {"k":..,"seen":ctx} (store, ucfs, mkf), {"name":str|null-if-unformatted} (mkf: the name it gives to
+  {"k":..,"seen":ctx} (store, ucfs, mkf), {"name":str|null-if-unformatted} (mkf: the `output` dictionary it gives to
   `(0, {})`; write, cache)], "fold":ctx|{"e":key} (the specification fold of the whole tree),
+  (compact: "closed"/"closed_at" are null and an entry of "spec" is "=" when equal to "nodes")
+  "closed": the same records for the closed form `final t [{}]`, "closed_at": per node the record of
+  `final s (histOfCone (cone t p) [{}])` (both must equal "nodes" on every case — `build_eq_final`, `final_at`),
   "spec":[per node: the same record predicted by `ctxAt`/`leafFinal`/`fold`, or null where the prefix of the node
   has an unresolved key], "cones":[per node: [["seq", number of earlier children] | ["split"], ..]],
   "out":{"r":[[data,ctx],..] (`run` on the built state), "ref": `runRef`, "plain": `runPlain`,
@@ -104,7 +108,20 @@ partial def toTree (j : Json) : Option Tree := do
       let l ← toLeaf (getD j "val")
       pure (.leaf (.mut k0 ks l))
   | "src" => pure (.leaf .src)
-  | "mkf" => do pure (.leaf (.mkf (← toTpl (getD j "tpl"))))
+  | "mkf" => do
+    let ms ← (← arr? (getD j "methods")).toList.mapM fun (x : Json) => do
+      let a ← arr? x
+      let key ← match (a[0]?).bind str? with
+        | some "prefix" => some MkfKey.pfx
+        | some "suffix" => some MkfKey.sfx
+        | some "filename" => some MkfKey.filename
+        | some "dirname" => some MkfKey.dirname
+        | some "fileext" => some MkfKey.fileext
+        | _ => none
+      let t ← toTpl (a[1]?.getD Json.null)
+      pure (key, t)
+    let ow ← bool? (getD j "overwrite")
+    pure (.leaf (.mkf { methods := ms, overwrite := ow }))
   | "write" => do pure (.leaf (.write (← toTpl (getD j "tpl"))))
   | "cache" => do pure (.leaf (.cache (← toTpl (getD j "tpl"))))
   | _ => none
@@ -126,11 +143,8 @@ partial def observe (n : Nat) (names : Array String) (ok : OutKeys) : St → Lis
       | none => Json.str "?unmodelled"
       | some x =>
         match getSlot x ok.output with
-        | some (.dict o) =>
-          match getSlot o ok.filename with
-          | some (.leaf l) => leafJson l
-          | _ => Json.mkObj [("absent", Json.bool true)]
-        | _ => Json.mkObj [("absent", Json.bool true)]
+        | some (.dict o) => ctxJson names o
+        | _ => Json.mkObj []
     [Json.mkObj [("k", "mkf"), ("seen", ctxJson names (c.getD (Val.empty n))), ("name", nm)]]
   | .write _ nm => [Json.mkObj [("k", "write"), ("name", nameJson nm)]]
   | .cache _ nm => [Json.mkObj [("k", "cache"), ("name", nameJson nm)]]
@@ -157,6 +171,13 @@ def specObs (n : Nat) (names : Array String) (ok : OutKeys) (t : Tree) (p : List
   | some (.split bs), some x => Json.mkObj [("k", "split"), ("get", resJson names (fold n (.split bs) x))]
   | _, _ => Json.null
 
+/-- the closed form evaluated locally: the record of the node at `p` in `final s (histOfCone (cone t p) [{}])`
+(what `final_at` and `build_eq_final` say the object at `p` is) -/
+def closedAt (n : Nat) (names : Array String) (ok : OutKeys) (t : Tree) (p : List Nat) : Json :=
+  match t.at? p, cone t p with
+  | some s, some k => (observe n names ok (final n s (histOfCone n k [Val.empty n]))).headD Json.null
+  | _, _ => Json.null
+
 def coneJson (t : Tree) (p : List Nat) : Json :=
   match cone t p with
   | none => Json.null
@@ -177,10 +198,10 @@ def handle (j : Json) : Json :=
   | some "build" =>
     match (arr? (getD j "names")).bind (fun a => a.toList.mapM str?), natList? (getD j "out"),
         toTree (getD j "tree") with
-    | some nl, some [o, f, p, s], some t =>
+    | some nl, some [o, f, p, s, dn, fe], some t =>
       let names := nl.toArray
       let n := names.size
-      let ok : OutKeys := { output := o, filename := f, pfx := p, sfx := s }
+      let ok : OutKeys := { output := o, filename := f, pfx := p, sfx := s, dirname := dn, fileext := fe }
       let st := build n t
       let out : Json :=
         if (getD j "flow").isNull then Json.null
@@ -200,8 +221,16 @@ def handle (j : Json) : Json :=
             | none => Json.mkObj [("unmodelled", Json.bool true)]
           | _, _ => err "bad flow"
       let paths := allPaths t
-      Json.mkObj [("nodes", Json.arr (observe n names ok st).toArray),
-                  ("spec", ofList (specObs n names ok t) paths),
+      let nodes := observe n names ok st
+      -- replies are compact: `null` / "=" stand for "equal to the record in nodes"
+      let closed := observe n names ok (final n t [Val.empty n])
+      let closedAtL := paths.map (closedAt n names ok t)
+      let spec := (paths.map (specObs n names ok t)).zip nodes |>.map fun (sp, nd) =>
+        if sp == nd then Json.str "=" else sp
+      Json.mkObj [("nodes", Json.arr nodes.toArray),
+                  ("spec", Json.arr spec.toArray),
+                  ("closed", if closed == nodes then Json.null else Json.arr closed.toArray),
+                  ("closed_at", if closedAtL == nodes then Json.null else Json.arr closedAtL.toArray),
                   ("cones", ofList (coneJson t) paths),
                   ("fold", resJson names (fold n t (Val.empty n))), ("out", out)]
     | _, _, _ => err "bad build args"
